@@ -9,6 +9,8 @@ import (
 	"github.com/ulikunitz/xz"
 	"github.com/ulikunitz/xz/lzma"
 
+	"verif/ev"
+	"verif/fault"
 	"verif/gen"
 	"verif/ref"
 )
@@ -39,9 +41,31 @@ func readerDict(format string, b *gen.Built) int {
 	return 4096
 }
 
+// sourceFor returns the source a decode of data reads from. Which kind is a
+// function of the data alone (so a case stays reproducible): a bytes.Reader,
+// a source that hands everything out at once but reports io.EOF together with
+// the last bytes, or one that cycles through short read lengths (with or
+// without EOF alongside the last bytes). All are legal io.Readers; what a
+// reader does must not depend on which one it gets.
+func sourceFor(data []byte) io.Reader {
+	n := len(data)
+	if n > 64 {
+		n = 64
+	}
+	switch h := ev.Hash64(data[:n]) + uint64(len(data)); h % 5 {
+	case 1:
+		return fault.NewFragReader(data, fault.Frag{Kind: "whole", EOFWith: true})
+	case 2:
+		return fault.NewFragReader(data, fault.Frag{Kind: "lens", Lens: []int{7, 1, 4096, 13}, EOFWith: h%2 == 0})
+	case 3:
+		return fault.NewFragReader(data, fault.Frag{Kind: "lens", Lens: []int{1, 2, 3, 5, 1000}, EOFWith: h%2 == 0})
+	}
+	return bytes.NewReader(data)
+}
+
 // decodeAll opens and reads everything.
 func decodeAll(format string, data []byte, dictCap int) ([]byte, error) {
-	r, err := openReader(format, bytes.NewReader(data), dictCap)
+	r, err := openReader(format, sourceFor(data), dictCap)
 	if err != nil {
 		return nil, err
 	}
@@ -111,7 +135,7 @@ func viaWrite(w io.Writer, p []byte, via string) (int, error) {
 	case "copy":
 		// a source offering only Read: io.Copy uses w.ReadFrom when w
 		// implements io.ReaderFrom, and Write calls of up to 32 KiB otherwise
-		n, err := io.Copy(w, onlyReader{bytes.NewReader(p)})
+		n, err := io.Copy(w, onlyReader{sourceFor(p)}) // short reads, last bytes together with io.EOF: see sourceFor
 		return int(n), err
 	case "string":
 		return io.WriteString(w, string(p))
